@@ -731,7 +731,7 @@ def _rev(sh):
 
 def t_indep(b, cn, kinds, flowkind="rw", derived=None, prio=None):
     """class without task predecessors: every instance is a startup task."""
-    names = ["k", "j", "i"][:len(kinds)]
+    names = ["k", "j", "i", "h"][:len(kinds)]
     locs = []
     for i, kd in enumerate(kinds):
         sh = SHAPES1()[kd] if i == 0 else SHAPES2(names[i - 1])[kd]
@@ -753,6 +753,10 @@ def t_indep(b, cn, kinds, flowkind="rw", derived=None, prio=None):
         fl = [flow("A", READ, [din(T_data(0))])]
     elif flowkind == "new":
         fl = [flow("A", WRITE, [din(T_new()), dout(T_data(tile))])]
+    elif flowkind == "blocked":
+        # every instance waits for itself: nothing ever runs (C23 only needs the taskpool's internal_init)
+        fl = [flow("A", READ, [din(T_data(0))]),
+              flow("X", CTL, [din(T_task(cn, "X", params)), dout(T_task(cn, "X", params))])]
     else:
         fl = [flow("A", READ, [din(T_data(0))]), flow("B", RW, [din(T_data(tile)), dout(T_data(tile))])]
     pr = None
@@ -1004,3 +1008,69 @@ def random_programs(seed, count, max_tasks=80, max_tiles=110):
         except Invalid:
             continue
     return out
+
+
+# ------------------------------------------------------------------------------------------------ key shapes (C23)
+def key_shapes(rng, count):
+    """Parameter-space shapes with 1..4 parameters: (kinds, derived, swap).  Deterministic core (every pair of a
+    one-parameter form with an inner form, the expression-defined parameter, the declaration order different from
+    the definition order) followed by seeded random deeper nests."""
+    k1 = list(SHAPES1().keys())
+    k2 = list(SHAPES2("k").keys())
+    out = []
+    for a in k1:
+        out.append(([a], None, False))
+    for a in k1:
+        for b in k2:
+            out.append(([a, b], None, False))
+    out.append((["asc"], "param", False))                 # T(k, d), d = k + 1
+    out.append((["asc_neg", "tri_lo"], "param", False))
+    out.append((["asc"], "mid", False))
+    out.append((["desc"], "mid", False))
+    out.append((["asc"], "local", False))
+    out.append((["asc", "tri_lo"], None, True))          # T(j, k) with k defined first
+    out.append((["desc", "tri_desc", "rect"], None, True))
+    out.append((["step2", "tri_neg"], None, True))
+    inner3 = ["rect", "rect_desc", "tri_lo", "tri_desc", "tri_step"]
+    while len(out) < count:
+        n = rng.choice([3, 3, 4])
+        kinds = [rng.choice(k1), rng.choice(k2)] + [rng.choice(inner3) for _ in range(n - 2)]
+        out.append((kinds, rng.choice([None, None, None, "local"]), rng.random() < 0.25))
+    return out[:count]
+
+
+def key_programs(seed, count, per_prog=6):
+    """Programs for C23: `count` task classes (one shape each), `per_prog` classes per program.  Every instance
+    depends on itself, so that no task ever runs: the keys are observed after internal_init, whatever the runtime
+    would do with the tasks (cf. the descending-range defect of C01)."""
+    rng = random.Random(seed)
+    shapes = key_shapes(rng, count)
+    progs = []
+    cur = None
+    for si, (kinds, derived, swap) in enumerate(shapes):
+        if cur is None or len(cur.classes) >= per_prog:
+            if cur is not None:
+                progs.append(cur)
+            cur = Builder(N=rng.choice([3, 4]), M=rng.choice([2, 3]), K=1, ts=1, name="vk%03d" % len(progs))
+        try:
+            c = t_indep(cur, "T%d" % len(cur.classes), kinds, flowkind="blocked", derived=derived)
+        except Invalid:
+            continue
+        if swap and len(c["params"]) > 1:
+            c["params"] = list(reversed(c["params"]))
+            for d in c["flows"][1]["deps"]:
+                d["t"]["args"] = [A_e(x) for x in c["params"]]
+        c["shape"] = "/".join(kinds) + ("+" + derived if derived else "") + ("+swap" if swap else "")
+    if cur is not None and cur.classes:
+        progs.append(cur)
+    res = []
+    for b in progs:
+        shapes_of = [c.pop("shape") for c in b.classes]
+        p = b.build()
+        try:
+            it = Interp(p, max_tasks=1500)       # only the space matters here (the programs never run a task)
+        except Invalid:
+            continue
+        special = any(("+param" in s or "+swap" in s) for s in shapes_of)
+        res.append({"prog": p, "tags": shapes_of, "desc": has_descending(p), "ntasks": len(it.order), "special": special})
+    return res
